@@ -300,3 +300,196 @@ def dynamic_over_default_conversion(R):
     finally:
         pyrun.drop_module(mod)
         apischema.cache.reset()
+
+
+FLAT_SRC = '''
+from dataclasses import dataclass, field
+from typing import Optional
+from apischema import alias
+from apischema.metadata import flatten
+
+@dataclass
+class Geo:
+    lat_deg: float = 0.0
+
+@dataclass
+class Address:
+    street_name: str
+    zip_code: int = 0
+    geo: Geo = field(default_factory=Geo, metadata=flatten)
+
+@alias(lambda s: "p_" + s)
+@dataclass
+class Person:
+    full_name: str
+    address: Address = field(metadata=flatten)
+    age_years: int = 0
+'''
+
+
+def flatten_probe(R):
+    """flattened objects (two levels, class aliaser on the outer class): the keys serialize produces are the keys deserialize
+    consumes, under every dynamic aliaser (C05 round trip, C11 one external name)"""
+    pyrun.ensure_repo_on_path()
+    import apischema.cache
+    from apischema import deserialize, serialize, ValidationError
+    from apischema.utils import to_camel_case
+    apischema.cache.reset()
+    mod = pyrun.exec_module(FLAT_SRC)
+    info = dict(source=FLAT_SRC)
+    try:
+        v = mod.Person("n", mod.Address("s", 7, mod.Geo(1.5)), 3)
+        for aname, al in (("identity", lambda s: s), ("camelCase", to_camel_case), ("custom", lambda s: s + "_x")):
+            R.count("flatten_probe")
+            out = serialize(mod.Person, v, aliaser=al)
+            want = [al("p_full_name"), al("street_name"), al("zip_code"), al("lat_deg"), al("p_age_years")]
+            if sorted(out) != sorted(want):
+                R.violation(f"serialize keys {sorted(out)} differ from the external names {sorted(want)} (aliaser {aname}, flattened fields)", info)
+                continue
+            try:
+                back = deserialize(mod.Person, out, aliaser=al)
+            except ValidationError as e:
+                R.violation(f"deserialize rejects what serialize produced with flattened fields (aliaser {aname}): {e.errors[:2]}",
+                            dict(info, output=out))
+                continue
+            if back != v:
+                R.violation(f"round trip through flattened fields differs (aliaser {aname}): {back!r}", dict(info, output=out))
+            bad = dict(out)
+            bad[al("street_name")] = 0
+            bad[al("lat_deg")] = "x"
+            try:
+                deserialize(mod.Person, bad, aliaser=al)
+                R.violation("invalid flattened data accepted", info)
+            except ValidationError as e:
+                locs = sorted(tuple(x["loc"]) for x in e.errors)
+                if locs != sorted([(al("street_name"),), (al("lat_deg"),)]):
+                    R.violation(f"error locations {locs} of flattened fields differ from the external names (aliaser {aname})", info)
+    except Exception as e:
+        R.violation(f"{type(e).__name__} in the flatten probe: {e}", info)
+    finally:
+        pyrun.drop_module(mod)
+        apischema.cache.reset()
+
+
+CONVX_SRC = '''
+from dataclasses import dataclass
+from typing import Generic, List, Optional, TypeVar, Annotated
+from apischema import deserializer, serializer, schema
+from apischema.conversions import Conversion, as_str
+
+T = TypeVar("T")
+
+class Money:
+    def __init__(self, cents):
+        self.cents = cents
+    def __eq__(self, o):
+        return type(o) is type(self) and o.cents == self.cents
+
+class SubMoney(Money):
+    pass
+
+def money_cents(m: Money) -> int:
+    return m.cents
+serializer(Conversion(money_cents, source=Money, target=int))
+
+class Code:
+    def __init__(self, s):
+        self.s = s
+    def __str__(self):
+        return self.s
+    def __eq__(self, o):
+        return type(o) is type(self) and o.s == self.s
+as_str(Code)
+
+class SubCode(Code):
+    pass
+
+class W(Generic[T]):
+    def __init__(self, x):
+        self.x = x
+    def __eq__(self, o):
+        return isinstance(o, W) and o.x == self.x
+
+@deserializer
+def wrap(x: T) -> W[T]:
+    return W(x)
+
+@dataclass
+class Point:
+    x: int
+
+@schema(min_len=3)
+class Slug:
+    def __init__(self, s):
+        self.s = s
+    def __eq__(self, o):
+        return isinstance(o, Slug) and o.s == self.s
+
+@deserializer
+def slug(s: str) -> Slug:
+    return Slug(s)
+
+class Cents:
+    def __init__(self, n):
+        self.n = n
+    def __eq__(self, o):
+        return isinstance(o, Cents) and o.n == self.n
+
+@deserializer
+def cents(n: int) -> Cents:
+    return Cents(n)
+'''
+
+
+def conversion_extra_probe(R):
+    """serializers given as Conversion objects are inherited; generic deserializers specialise their TypeVar source;
+    constraints on a converted type are enforced on its source, as the schema says"""
+    pyrun.ensure_repo_on_path()
+    import apischema.cache
+    import jsonschema
+    from typing import List, Annotated, Optional
+    from apischema import deserialize, serialize, ValidationError, schema
+    from apischema.json_schema import deserialization_schema
+    apischema.cache.reset()
+    mod = pyrun.exec_module(CONVX_SRC)
+    info = dict(source=CONVX_SRC)
+    try:
+        # serialize(T, v) == serialize(U, g(v)), subclasses inherit
+        for tp, v, want in ((mod.Money, mod.Money(5), 5), (mod.SubMoney, mod.SubMoney(7), 7), (mod.Money, mod.SubMoney(8), 8),
+                            (List[mod.SubMoney], [mod.SubMoney(1)], [1]), (mod.Code, mod.Code("a"), "a"), (mod.SubCode, mod.SubCode("b"), "b"),
+                            (Optional[mod.SubCode], mod.SubCode("c"), "c")):
+            R.count("serializer_inheritance_probe")
+            got = outcome(lambda: serialize(tp, v))
+            if got != ("ok", want):
+                R.violation(f"serialize({tp}, instance of {type(v).__name__}) = {got!r}: a serializer registered as a Conversion object / "
+                            f"as_str is not applied to the subclass (expected {want!r})", info)
+        # generic deserializer: deserialize(W[X], d) == wrap(deserialize(X, d)), rejects what X rejects
+        for arg, good, bad in ((int, 1, "a"), (str, "a", 1), (mod.Point, {"x": 1}, {"x": "no"}), (List[int], [1, 2], [1, "a"])):
+            R.count("generic_deserializer_probe")
+            tp = mod.W[arg]
+            got = outcome(lambda: deserialize(tp, good))
+            want = ("ok", mod.W(deserialize(arg, good)))
+            if got != want:
+                R.violation(f"deserialize(W[{arg}], {good!r}) = {got!r} differs from wrap(deserialize({arg}, d)) = {want!r}", info)
+            got = outcome(lambda: deserialize(tp, bad))
+            if got[0] != "err":
+                R.violation(f"deserialize(W[{arg}], {bad!r}) = {got!r}: the source type of the generic deserializer is not specialised "
+                            f"({arg} rejects this datum)", info)
+        # constraints on converted types: deserialize agrees with the schema
+        cases = [(mod.Slug, {}, ["ab", "abc", "", 3]), (Annotated[mod.Cents, schema(min=10)], {}, [5, 10, 50, "x"]),
+                 (mod.Cents, dict(schema=schema(min=10, max=20)), [5, 15, 25]), (List[mod.Slug], {}, [["abc"], ["ab"], []]),
+                 (Annotated[mod.Slug, schema(max_len=4)], {}, ["ab", "abc", "abcde"])]
+        for tp, kw, data in cases:
+            doc = json.loads(json.dumps(deserialization_schema(tp, with_schema=False, **kw)))
+            for d in data:
+                R.count("converted_constraints_probe")
+                acc = outcome(lambda: deserialize(tp, d, **kw))[0] == "ok"
+                valid = jsonschema.Draft202012Validator(doc).is_valid(d)
+                if acc != valid:
+                    R.violation(f"converted type {tp}: deserialize {'accepts' if acc else 'rejects'} {d!r} but the schema says "
+                                f"{'valid' if valid else 'invalid'} (constraints of a converted type)", dict(info, schema=doc))
+    except Exception as e:
+        R.violation(f"{type(e).__name__} in the conversion probe: {e}", info)
+    finally:
+        pyrun.drop_module(mod)
+        apischema.cache.reset()
